@@ -43,6 +43,8 @@ type Ctl struct {
 	lastAt  map[string]string // role -> gate where it is (parked) or "gate!" after release
 	Events  []map[string]any
 	OnEvent func(map[string]any)
+	// OnArrive, if set, is called (under the controller's mutex) when a goroutine parks at a gate
+	OnArrive func(*Gate)
 }
 
 func New() *Ctl {
@@ -79,6 +81,9 @@ func (c *Ctl) Hook(point string, obj any) {
 	g := &Gate{Gid: gid, Point: point, Obj: obj, Role: role, ch: make(chan struct{}), seq: c.seq}
 	c.parked = append(c.parked, g)
 	c.lastAt[role] = point
+	if c.OnArrive != nil {
+		c.OnArrive(g)
+	}
 	c.mu.Unlock()
 	<-g.ch
 }
